@@ -748,7 +748,12 @@ func (ssc *defaultStatefulSetControl) createControllerRevision(parent metav1.Obj
 			if err != nil {
 				return nil, err
 			}
-			if bytes.Equal(exists.Data.Raw, clone.Data.Raw) {
+			// A revision of that name which another owner controls is a name collision
+			// even if it holds the same data: it is not part of parent's history (it
+			// is never listed for parent), so returning it would make parent repeat
+			// this create on every sync.
+			if owner := metav1.GetControllerOf(exists); bytes.Equal(exists.Data.Raw, clone.Data.Raw) &&
+				(owner == nil || owner.UID == parent.GetUID()) {
 				return exists, nil
 			}
 			*collisionCount++
